@@ -32,6 +32,8 @@ RULES = {
              'record writer dominates (after a rotation the record is appended again to the fresh file, so the live file is never '
              'left empty on a non-empty log and last_op_time stays the newest timestamp)',
     'C12.d': 'scan order: rotated files oldest first, live file last (later inserts override earlier labels)',
+    'C12.i': 'the name a full oplog file is renamed to has a fresh component (clock or counter), it is not computed from the log itself: rename replaces an existing file of the same name',
+    'C12.j': 'no function that opens the live oplog file (or a helper handed its name) truncates it (File::create, set_len, truncate(true))',
 }
 
 
